@@ -277,7 +277,34 @@ func c15(c *core.Ctx, r *core.Report) {
 				if e.Frame.Parent != nil && ownOK && ptrField(own) {
 					return // decided with the helper itself as root
 				}
+				viaCoalesce := false
 				u, ok := e.Translate(st.Val).(*ssa.UnOp)
+				if hc, isCall := st.Val.(*ssa.Call); isCall && e.Frame.Parent == nil {
+					// `s.F = orDefault(s.F, defaults.G, fallback)`: a coalescing helper preferring the stage's own value, then
+					// the default, then a fresh value, is the inheritance block in one expression
+					if cs := coalesceOf(an.Callee(hc)); cs != nil {
+						ownIdx, defIdx := -1, -1
+						for i, a := range hc.Call.Args {
+							au, isU := a.(*ssa.UnOp)
+							if !isU || !ptrField(au) {
+								continue
+							}
+							if an.SameField(an.FieldOfAddr(au.X), dst) && an.Strip(au.X.(*ssa.FieldAddr).X) == an.Strip(st.Addr.(*ssa.FieldAddr).X) {
+								ownIdx = i
+							} else {
+								defIdx = i
+							}
+						}
+						if ownIdx >= 0 && defIdx >= 0 {
+							if !cs.prefers(ownIdx, defIdx) {
+								r.Violation(core.FuncName(fn)+"#"+dst.Name()+"←"+core.FuncName(an.Callee(hc))+"#only-when-unset", an.Pos(c, in), "%s is computed by %s, which does not prefer the stage's own value over the default and the default over a fresh value", dst.Name(), core.FuncName(an.Callee(hc)))
+								return
+							}
+							u, ok = hc.Call.Args[defIdx].(*ssa.UnOp), true
+							viaCoalesce = true
+						}
+					}
+				}
 				if !ok || !ptrField(u) {
 					return
 				}
@@ -313,6 +340,9 @@ func c15(c *core.Ctx, r *core.Report) {
 					if fa, isFA := an.Strip(g.T(x)).(*ssa.FieldAddr); isFA && an.SameField(an.FieldOfAddr(fa), dst) {
 						onlyWhenUnset = true
 					}
+				}
+				if viaCoalesce {
+					onlyWhenUnset = true
 				}
 				if !onlyWhenUnset {
 					r.Violation(key+"#only-when-unset", an.Pos(c, in), "%s is overwritten with the default %s also when the stage sets it itself (the store is not guarded by %s == nil): an explicit value is silently replaced", dstD, srcD, dst.Name())
